@@ -167,6 +167,8 @@ def unlock(config, key_bytes, password):
     cipher = Cipher(config['encryption']['cipher'])
     if key['kdf'].get('length') != cipher.key_bytes:
         raise FormatError('user key length %r does not match the cipher key length %d' % (key['kdf'].get('length'), cipher.key_bytes))
+    if not isinstance(key['private'], bytes) or not isinstance(key['kdf_params'], bytes):
+        raise FormatError('key file: private section / kdf_params must be byte strings (the private section is stored encrypted)')
     userkey = slow_kdf(key['kdf'], password, key['kdf_params'])
     private = loads(cipher.decrypt(key['private'], userkey))
     need = {'shared_key', 'shared_kdf', 'shared_kdf_params', 'mac', 'mac_params', 'chunker_params'}
